@@ -9,6 +9,7 @@ import SqiProofs.QuatDual
 import SqiProofs.QuatCanon
 import SqiProofs.QuatEqual
 import SqiProofs.HnfEchelon
+import SqiProofs.QuatGroupIndex
 import SqiGen.QuatAlg
 /- C14 — "Quaternion algebra and lattice arithmetic is exact and canonical".
    Property theorems about the hand model `SqiModel.Quat` (tie H: the model's executable definitions are run
@@ -227,6 +228,21 @@ theorem lattice_canonical (l1 l2 : Lattice) (h1 : l1.denom ≠ 0) (h2 : l2.denom
     (h : ratLat l1 = ratLat l2) : l1.basis = l2.basis ∧ l1.denom.natAbs = l2.denom.natAbs :=
   lattice_repr_unique l1 l2 h1 h2 hn1 hn2 r1 r2 h
 
+/-- **`quat_lattice_index` is the group index**: for nested full-rank lattices with triangular (e.g. HNF) bases the
+    result is [over : sub] = Mathlib's `AddSubgroup.relIndex` of the two rational lattices (the exactness of the
+    integer division asserted in the C code follows from the inclusion) -/
+theorem lattice_index_is_group_index (sub over : Lattice) (hs : sub.denom ≠ 0) (ho : over.denom ≠ 0)
+    (hts : ∀ r c, r < 4 → c < r → sub.basis.get r c = 0) (hto : ∀ r c, r < 4 → c < r → over.basis.get r c = 0)
+    (hds : (toMatrix sub.basis).det ≠ 0) (hdo : (toMatrix over.basis).det ≠ 0) (hle : ratLat sub ≤ ratLat over) :
+    latIndex sub over = (((ratLat sub).toAddSubgroup.relIndex (ratLat over).toAddSubgroup : ℕ) : ℤ) ∧
+    (((ratLat sub).toAddSubgroup.relIndex (ratLat over).toAddSubgroup : ℕ) : ℚ) = covol sub / covol over :=
+  ⟨latIndex_eq_relIndex sub over hs ho hts hto hds hdo hle, relIndex_eq_covol_ratio sub over hs ho hds hdo hle⟩
+
+/-- inclusion of full-rank lattices with equal covolume is equality -/
+theorem lattice_eq_of_le_of_covol (l' l : Lattice) (hd' : l'.denom ≠ 0) (hd : l.denom ≠ 0)
+    (hne : (toMatrix l.basis).det ≠ 0) (hle : ratLat l' ≤ ratLat l) (hcov : covol l' = covol l) :
+    ratLat l' = ratLat l := ratLat_eq_of_le_of_covol l' l hd' hd hne hle hcov
+
 /-! ## non-vacuity: the hypotheses are met by concrete non-trivial instances -/
 
 /-- the maximal order O₀ = ⟨1, i, (i+j)/2, (1+k)/2⟩ (denominator 2) has an HNF basis -/
@@ -252,6 +268,9 @@ example : FullRank (spanL O0.basis.cols) := by
 example : (⟨-3, ⟨1, -2, 5, 7⟩⟩ : Elem).denom ≠ 0 := by decide
 
 example : Reduced O0 := by unfold Reduced; decide
+
+/-- nested pair for the index theorems: 2·O₀ ⊂ O₀ (same basis, denominator 1 instead of 2), index 2⁴ -/
+example : latIndex ⟨1, O0.basis⟩ O0 = 16 := by decide
 
 /-- a non-triangular basis whose upper triangle is divisible by 7 while the whole matrix has content 1: mulmat(x) for
     x = (7 + 14i + j + 2ij)/7 in the algebra with p = 7 (the basis `quat_lideal_create_principal` reduces before the HNF) -/
